@@ -18,7 +18,7 @@ import common as C  # noqa: E402
 
 FAMILY = {
     "C01": "cast", "C02": "cast", "C03": "cast", "C07": "cast", "C11": "cast+alloc", "C14": "cast",
-    "C20": "features", "C17": "tables:contig", "C04": "tables:census",
+    "C20": "features", "C05": "derive", "C19": "derive", "C06": "derive", "C08": "derive", "C18": "derive", "C17": "tables:contig", "C04": "tables:census",
     "C09": "alloc", "C10": "alloc", "C12": "alloc", "C13": "alloc", "C15": "alloc", "C16": "alloc",
 }
 
@@ -170,6 +170,19 @@ def check(prop, tier, seed):
                          "boundaries/extremes of wider ones, derived enums against default-method twins; trait census over the closed "
                          "type universe per feature configuration; one evaluation = one probe of the real crate compared with the "
                          "model over the REGENERATED tables and checked by the monitor; distinct = distinct transcript lines" % ", ".join(which))
+        if fam == "derive":
+            import fam_derive
+            res = fam_derive.transcripts(tier, seed, fam_derive.SETS[prop])
+            m, c, st = fam_derive.findings(res, prop)
+            mons += m; corrs += c; herr += list(st["harness_errors"]); notes += st.get("notes", [])
+            evals += st["evaluations"]; distinct += len(st["distinct"]); samples += st["samples"]
+            dist["derivefam_by_line_kind"] = dict(st["by_fn"]); dist["derivefam"] = dict(st["by_outcome"])
+            dist["derivefam_transcripts_cached"] = res.get("cached", False)
+            rules.append("derivefam: a seeded family of type definitions (fixed corpus first), each (definition, derive) pair in its own "
+                         "module; the real rustc + derive macro give the compile verdict of every pair (iterated cargo check, errors "
+                         "attributed by span), a facts binary gives the compiler's layout and run-time behaviour; each observation is "
+                         "compared with the hand-written model of the macro and checked against the trait contract by the monitor; "
+                         "distinct = distinct observation vectors")
         if fam == "features":
             import fam_features
             m, st = fam_features.run(tier, seed)
